@@ -27,12 +27,30 @@ ALPHABET = [
 ]
 INVALIDATING = ("subject_to", "clear_constraints", "add_objective", "method")
 
+# second base: free horizon, guesses that depend on other guesses (time expressions, guess of T)
+BASE2 = P.case(state="scalar", horizon="Tfree", cons=[P.con("bc0")], obj=["mayer_tf", "integral", "T"], method="MS", N=2)
+ALPHABET2 = [
+    ["set_initial", "x", "expr", "lin"],
+    ["set_initial", "x", "const", 0.4],
+    ["set_initial", "T", "const", 3.1],
+    ["set_initial", "T", "const", 0.8],
+    ["set_initial", "u", "expr", "sin"],
+    ["subject_to", P.con("x_le")],
+    ["method", "MS3g"],
+    ["method", "DC2"],
+    ["query", "sample"],
+    ["solve"],
+]
+
 
 def cases(tier):
     depth = 4 if tier == "thorough" else 3
     out = []
     for h in explore.histories(list(range(len(ALPHABET))), depth):
         out.append(dict(ops=[ALPHABET[i] for i in h], idx=list(h)))
+    for h in explore.histories(list(range(len(ALPHABET2))), depth):
+        if h:
+            out.append(dict(ops=[ALPHABET2[i] for i in h], idx=list(h), base=2))
     if tier == "thorough":
         # depth 5 restricted to histories with at most one invalidating edit and at least one transcribing op
         for h in itertools.product(range(len(ALPHABET)), repeat=5):
@@ -57,7 +75,7 @@ def op_tags(ops):
 
 
 def run_case(case):
-    out = hist.run_history(BASE, case["ops"])
+    out = hist.run_history(BASE2 if case.get("base") == 2 else BASE, case["ops"])
     tags = op_tags(case["ops"])
     for v in out["violations"]:
         v["tags"] = tags
@@ -71,6 +89,6 @@ def run_case(case):
 
 def describe(tier):
     return dict(
-        rule="every operation sequence of length <= d over a 16-operation alphabet (2 subject_to, clear_constraints, add_objective, 3 methods, 2 solver option sets, set_T, set_t0, 2 set_value, set_initial, query, solve) applied to a live Ocp (no implementation-side state merging), followed by the observation `solve` under a solver spy; oracle: the NLP (canonical rows, objective, start point, parameter vector) and solver settings seen by the solver equal those of a fresh Ocp declared from the final specification; a second solve sees the same; public declared state unchanged by queries/solves; distinct = digest of the observation",
+        rule="(base 2: free horizon, 10-operation alphabet with time-expression guesses, guesses of T, methods with other grids, query, solve) and every operation sequence of length <= d over a 16-operation alphabet (2 subject_to, clear_constraints, add_objective, 3 methods, 2 solver option sets, set_T, set_t0, 2 set_value, set_initial, query, solve) applied to a live Ocp (no implementation-side state merging), followed by the observation `solve` under a solver spy; oracle: the NLP (canonical rows, objective, start point, parameter vector) and solver settings seen by the solver equal those of a fresh Ocp declared from the final specification; a second solve sees the same; public declared state unchanged by queries/solves; distinct = digest of the observation",
         bound="depth %d%s" % ((4, " + restricted depth 5") if tier == "thorough" else (3, "")),
         assumptions=["solver spy at casadi.Opti.solve/solve_limited/solver is 'what the solver receives'", "observation with ipopt max_iter=0 (returns the start point)", "rows compared at 2 generic points and the start point"])
